@@ -110,6 +110,12 @@ def oracle_repr(ck, tier, deep):
         Pn = uniform_filter1d(harm[1:], win, axis=1, mode="nearest")
         if terms > 1 and np.abs(Ibw[1:] - np.divide(Pn, P0, out=np.zeros_like(Pn), where=P0 != 0)).max() > 1e-12 * max(1.0, np.abs(Ibw[1:]).max()):
             ck.violation(dict(site="Results.Ibeta", clause="window"), dict(rep, window=win), "windowed beta is not the ratio of moving averages")
+        if np.abs(Ibw[0] - 4 * np.pi * R.r ** 2 * harm[0]).max() > 1e-12 * np.abs(Ib[0]).max() + 1e-300:
+            ck.violation(dict(site="Results.Ibeta", clause="I=4πr²P0-windowed"), dict(rep, window=win),
+                         f"with window={win}, I(r) != 4 pi r^2 P0(r) (the window is documented to average beta only)")
+        rIbw = quiet(R.rIbeta, win)
+        if not (np.array_equal(rIbw[0], R.r) and np.array_equal(rIbw[1:], Ibw)):
+            ck.violation(dict(site="Results.rIbeta", clause="window"), dict(rep, window=win), "rIbeta(window) is not r prepended to Ibeta(window)")
         for a, b in ((R.rcos(), R.cos()), (R.rcossin(), R.cossin()), (R.rharmonics(), R.harmonics()), (R.rIbeta(), R.Ibeta())):
             if not (np.array_equal(a[0], R.r) and np.array_equal(a[1:], b)):
                 ck.violation(dict(site="Results", clause="r-prefixed"), rep, "r-prefixed variant differs from the plain one")
@@ -144,7 +150,7 @@ def oracle_invariance(ck, tier, deep):
             tol = 1e-9 * max(1.0, np.abs(base[:, good]).max())
             checks = {
                 "mirror-left-right": run(im[:, ::-1], wt[:, ::-1], (row, w - 1 - col)),
-                "weight-scaling": run(im, wt * 7.5, (row, col)),
+                "weight-scaling": run(im, wt * float(rng.choice([7.5, 1e-6, 2.0 ** -20, 1e5, 1.0 / wt.sum()])), (row, col)),
                 "zero-weight-pixels": run(np.where(zero, 1e3 * rng.random((h, w)), im), wt, (row, col)),
                 "origin-negative": run(im, wt, (row - h, col - w)),
                 "larger-rmax": run(im, wt, (row, col), rmax + 3)[:, :rmax + 1],
